@@ -227,7 +227,7 @@ func runC10(c *Ctx) {
 			if obj == nil {
 				continue
 			}
-			site := rwSite{fn: fn, alloc: al, obj: obj, fields: map[string]*E{}, cond: sa.act.RC[al.Block()], pos: al.Pos()}
+			site := rwSite{fn: fn, alloc: al, obj: obj, fields: map[string]*E{}, cond: sa.act.RCAt(al), pos: al.Pos()}
 			for _, ef := range s.Effects {
 				if ef.Kind == "store" && ef.Addr.Op == "faddr" && ef.Addr.Args[0] == obj {
 					site.fields[ef.Addr.Aux] = ef.Val
